@@ -2,9 +2,10 @@
     Only statements.  [p_durable] = the persister has a path (DB, SerialDB, sharded over them).
     Modelling assumption: goleveldb applies a batch atomically and a cleanly closed database
     reopens with the same content (the disk is an association list that outlives the object). *)
-From Coq Require Import List NArith ZArith Bool.
+From Coq Require Import List NArith ZArith Bool Permutation Sorted.
 From Verif Require Import Base.BStr Persist.Batch Persist.LevelDb Persist.SerialDb Persist.MemDb Persist.MapSpec
-  Persist.ShardId Persist.ShardedDb Persist.PersistSpec Persist.LevelDb_proofs Persist.SerialDb_proofs Persist.PersistSpec_proofs.
+  Persist.ShardId Persist.ShardedDb Persist.PersistSpec Persist.LevelDb_proofs Persist.SerialDb_proofs Persist.PersistSpec_proofs
+  Persist.PersistC09_proofs.
 Import ListNotations.
 
 (** Close returns nil, and the persister opened afterwards on the same path presents -- via Get, Has
@@ -91,6 +92,186 @@ Theorem C09_observation_put_on_closed_db_acknowledged :
   exists s k v, d_open s = false /\ snd (db_put s k v) = ROk /\ db_reopen (fst (db_put s k v)) = db_reopen s.
 Proof. exact db_put_on_closed_acknowledged. Qed.
 
+(** ================= RangeKeys with a handler that stops the iteration =================
+    The handler of the harness answers `calls so far < n`: it asks to stop after max(n,1) visits
+    ([p_range_stop n p] = the pairs it was given, in call order). *)
+
+(** (a) every visited pair is a flushed pair, no key twice, at least min(max(n,1), flushed keys) visits and never more
+    than there are flushed keys; DB / SerialDB / memorydb stop for good: EXACTLY min(max(n,1), flushed keys) visits;
+    the sharded persister hands the handler to every shard: at most max(n,1) + shards - 1 visits *)
+Theorem C09_range_stop : forall (n : nat) (p : pers),
+  p_ok p ->
+  let vs := p_range_stop n p in
+  (forall k v, In (k, v) vs -> p_flushed p k = Some v)
+  /\ NoDup (map fst vs)
+  /\ (Nat.min (Nat.max 1 n) (length (p_range p)) <= length vs)%nat
+  /\ (length vs <= length (p_range p))%nat
+  /\ match p with
+     | PBase _ => length vs = Nat.min (Nat.max 1 n) (length (p_range p))
+     | PSharded s => (length vs + 1 <= Nat.max 1 n + length (sh_shards s))%nat
+     end.
+Proof. exact p_range_stop_spec. Qed.
+
+(** ... on every state reachable through histories with Close;Reopen and destroy cycles *)
+Theorem C09_range_stop_reachable : forall (n : nat) (p : pers) (ops : list op3),
+  p_ok p -> p_durable p ->
+  let q := fst (p_run3 p ops) in
+  let vs := p_range_stop n q in
+  (forall k v, In (k, v) vs -> p_flushed q k = Some v)
+  /\ NoDup (map fst vs)
+  /\ (Nat.min (Nat.max 1 n) (length (p_range q)) <= length vs)%nat
+  /\ (length vs <= length (p_range q))%nat
+  /\ match q with
+     | PBase _ => length vs = Nat.min (Nat.max 1 n) (length (p_range q))
+     | PSharded s => (length vs + 1 <= Nat.max 1 n + length (sh_shards s))%nat
+     end.
+Proof. exact p_range_stop_reachable. Qed.
+
+(** DB and SerialDB: the visits are the first max(n,1) pairs of the strictly ascending key order of what LevelDB holds *)
+Theorem C09_range_stop_ascending : forall (n : nat) (b : base),
+  b_ok b -> b_durable b ->
+  b_range_stop n b = firstn (Nat.max 1 n) (b_iter b)
+  /\ StronglySorted klt (b_iter b)
+  /\ Permutation (b_iter b) (b_range b).
+Proof. exact b_range_stop_ascending. Qed.
+
+(** the sharded persister, for EVERY order in which Go may walk its map of shards: the visits are, shard after
+    shard, the first [expected_run n (calls so far) (pairs the shard holds)] pairs of that shard ([runs_ok]); hence
+    flushed pairs only, no key twice, and the bounds of C09_range_stop *)
+Theorem C09_range_stop_any_shard_order : forall (s : sharded) (n : nat) (order : list nat),
+  sh_ok s -> Permutation order (seq 0 (length (sh_shards s))) ->
+  let vs := sh_range_stop_ord order n s in
+  runs_ok s n 0 order vs
+  /\ (forall k v, In (k, v) vs -> sh_flushed s k = Some v)
+  /\ NoDup (map fst vs)
+  /\ (Nat.min (Nat.max 1 n) (length (sh_range s)) <= length vs)%nat
+  /\ (length vs <= length (sh_range s))%nat
+  /\ (length vs + 1 <= Nat.max 1 n + length (sh_shards s))%nat.
+Proof. exact sh_range_stop_ord_spec. Qed.
+
+(** the executable model walks the shards in the order 0, 1, ... *)
+Theorem C09_range_stop_model_order : forall (n : nat) (s : sharded),
+  p_range_stop n (PSharded s) = sh_range_stop_ord (seq 0 (length (sh_shards s))) n s.
+Proof. exact p_range_stop_sharded_is_ord. Qed.
+
+(** FALSE of the code (finding): "a false from the handler stops the iteration" -- the sharded persister calls the
+    handler again for the next shard.  Witness: two memorydb shards holding one key each, n = 1, two visits *)
+Theorem C09_range_stop_sharded_stops_refuted :
+  exists p n, p_ok p /\ length (p_range_stop n p) <> Nat.min (Nat.max 1 n) (length (p_range p)).
+Proof. exact p_range_stop_sharded_refuted. Qed.
+
+(** the correspondence check sends the visits the implementation's handler received to the model (the order of a Go
+    map and of the shards is the implementation's choice); what the acceptor lets through is explained by the model
+    under some order of the shards, and every explained sequence has the properties above *)
+Theorem C09_range_stop_checker_sound : forall (n : nat) (p : pers) (vs : list (key * bytes)),
+  p_ok p -> p_accept_stop n p vs = true -> stop_explained n p vs.
+Proof. exact p_accept_stop_sound. Qed.
+
+Theorem C09_range_stop_explained : forall (n : nat) (p : pers) (vs : list (key * bytes)),
+  p_ok p -> stop_explained n p vs ->
+  (forall k v, In (k, v) vs -> p_flushed p k = Some v)
+  /\ NoDup (map fst vs)
+  /\ (Nat.min (Nat.max 1 n) (length (p_range p)) <= length vs)%nat
+  /\ (length vs <= length (p_range p))%nat
+  /\ match p with
+     | PBase _ => length vs = Nat.min (Nat.max 1 n) (length (p_range p))
+     | PSharded s => (length vs + 1 <= Nat.max 1 n + length (sh_shards s))%nat
+     end.
+Proof. exact stop_explained_spec. Qed.
+
+Theorem C09_range_stop_model_explained : forall (n : nat) (p : pers), p_ok p -> stop_explained n p (p_range_stop n p).
+Proof. exact p_range_stop_explained. Qed.
+
+(** ================= Destroy / DestroyClosed ================= *)
+
+(** (b) Destroy on an open persister, then the constructor on the same path: an EMPTY persister (nothing resurrected):
+    Get / Has answer not-found for every key, RangeKeys -- stopping or not -- visits nothing.  For every well-formed
+    state, i.e. after all histories *)
+Theorem C09_destroy_reopen_empty : forall (p : pers),
+  p_ok p ->
+  let q := fst (p_destroy_cycle p) in
+  snd (p_destroy_cycle p) = ROk
+  /\ p_ok q /\ (forall k, p_abs q k = None) /\ p_range q = []
+  /\ (forall k, canon_get (p_get q k) = (RNotFound, None)) /\ (forall k, p_has q k = RNotFound)
+  /\ (forall n, p_range_stop n q = []) /\ (p_durable p -> p_durable q).
+Proof. exact p_destroy_reopen_empty. Qed.
+
+(** Close; DestroyClosed; constructor: the same *)
+Theorem C09_close_destroy_closed_reopen_empty : forall (p : pers),
+  p_ok p ->
+  let q := fst (p_close_destroy_cycle p) in
+  snd (p_close_destroy_cycle p) = ROk
+  /\ p_ok q /\ (forall k, p_abs q k = None) /\ p_range q = []
+  /\ (forall k, canon_get (p_get q k) = (RNotFound, None)) /\ (forall k, p_has q k = RNotFound)
+  /\ (forall n, p_range_stop n q = []) /\ (p_durable p -> p_durable q).
+Proof. exact p_close_destroy_reopen_empty. Qed.
+
+(** for EVERY state (no hypothesis at all) both cycles give the persister the constructor gives on an empty path *)
+Theorem C09_destroy_cycles_are_fresh : forall (p : pers),
+  p_destroy_cycle p = (p_fresh p, ROk) /\ p_close_destroy_cycle p = (p_fresh p, ROk).
+Proof. exact destroy_cycles_are_fresh. Qed.
+
+(** strongest form: after ANY history (Put/Remove/Get/Has/Tick, Close;Reopen cycles, earlier destroy cycles) on a
+    persister the constructor gave, either destroy cycle gives back exactly the state the constructor gave *)
+Theorem C09_destroy_after_any_history : forall (kind : N) (max : Z) (n : N) (p : pers) (ops : list op3),
+  new_pers kind max n = Some p ->
+  p_destroy_cycle (fst (p_run3 p ops)) = (p, ROk) /\ p_close_destroy_cycle (fst (p_run3 p ops)) = (p, ROk).
+Proof. exact destroy_after_any_history. Qed.
+
+(** histories with Close;Reopen AND destroy cycles at arbitrary points answer as the map that a destroy cycle empties
+    and a Close;Reopen cycle leaves alone *)
+Theorem C09_histories_with_destroy_cycles : forall (ops : list op3) (p : pers),
+  p_ok p -> p_durable p ->
+  p_ok (fst (p_run3 p ops)) /\ p_durable (fst (p_run3 p ops))
+  /\ snd (p_run3 p ops) = snd (spec_run3 (p_abs p) ops)
+  /\ (forall k, p_abs (fst (p_run3 p ops)) k = fst (spec_run3 (p_abs p) ops) k).
+Proof. exact p_run3_spec. Qed.
+
+(** (c) operations on the destroyed object.  leveldb.DB: reads answer ErrDBIsClosed, RangeKeys never calls the handler,
+    Close / Destroy / DestroyClosed answer nil and change nothing; the first Put / Remove is ACKNOWLEDGED with nil
+    iff MaxBatchSize > 1 (and dropped: the path stays empty), ErrDBIsClosed otherwise *)
+Theorem C09_destroyed_db : forall (s : db) (k : key) (v : val),
+  let d := fst (db_destroy s) in
+  snd (db_destroy s) = ROk
+  /\ db_get d k = (RClosed, None) /\ db_has d k = RClosed /\ db_range d = []
+  /\ (forall St (h : St -> key * bytes -> St * bool) st, db_range_with h st d = st)
+  /\ db_close d = (d, ROk) /\ db_destroy d = (d, ROk) /\ db_destroy_closed d = (d, ROk) /\ db_tick d = d
+  /\ snd (db_put d k v) = (if (1 <? d_max s)%Z then ROk else RClosed)
+  /\ snd (db_remove d k) = (if (1 <? d_max s)%Z then ROk else RClosed)
+  /\ d_disk (fst (db_put d k v)) = [] /\ d_disk (fst (db_remove d k)) = [].
+Proof. exact db_destroyed_ops. Qed.
+
+(** leveldb.SerialDB: every operation answers ErrDBIsClosed and changes nothing *)
+Theorem C09_destroyed_serial_db : forall (s : sdb) (k : key) (v : val),
+  let d := fst (sdb_destroy s) in
+  snd (sdb_destroy s) = ROk
+  /\ sdb_put d k v = (d, RClosed) /\ sdb_remove d k = (d, RClosed)
+  /\ sdb_get d k = (RClosed, None) /\ sdb_has d k = RClosed /\ sdb_range d = []
+  /\ (forall St (h : St -> key * bytes -> St * bool) st, sdb_range_with h st d = st)
+  /\ sdb_close d = (d, ROk) /\ sdb_destroy d = (d, ROk) /\ sdb_destroy_closed d = (d, ROk) /\ sdb_tick d = d.
+Proof. exact sdb_destroyed_ops. Qed.
+
+(** memorydb: Destroy (= DestroyClosed) leaves a working, empty persister: the destroyed object still answers *)
+Theorem C09_destroyed_memdb_is_a_new_one : forall (s : mem),
+  mem_destroy s = (new_mem, ROk) /\ mem_destroy_closed s = (new_mem, ROk).
+Proof. exact mem_destroyed. Qed.
+
+(** any persister with a path, destroyed either way: reads answer ErrDBIsClosed, RangeKeys visits nothing,
+    Close / Destroy / DestroyClosed answer nil *)
+Theorem C09_destroyed_object_answers : forall (p : pers) (k : key) (n : nat),
+  p_ok p -> p_durable p ->
+  forall d, d = fst (p_destroy p) \/ d = fst (p_destroy_closed (fst (p_close p))) ->
+  p_get d k = (RClosed, None) /\ p_has d k = RClosed /\ p_range d = [] /\ p_range_stop n d = []
+  /\ snd (p_close d) = ROk /\ snd (p_destroy d) = ROk /\ snd (p_destroy_closed d) = ROk.
+Proof. exact destroyed_object_answers. Qed.
+
+(** whatever is called on the destroyed object -- any list of Put / Remove / Get / Has / Tick / Close / Destroy /
+    DestroyClosed -- nothing reaches the path: the constructor afterwards gives the empty persister *)
+Theorem C09_destroyed_object_ops_then_reopen : forall (p : pers) (ops : list dop),
+  p_reopen (fold_left p_dstep ops (fst (p_destroy p))) = p_fresh p
+  /\ p_reopen (fold_left p_dstep ops (fst (p_destroy_closed (fst (p_close p))))) = p_fresh p.
+Proof. exact destroyed_object_reopen. Qed.
+
 (** non-vacuity: SerialDB, MaxBatchSize 3; the last partial batch holds a removal of a flushed key and a put *)
 Definition ka : key := [97]%N.
 Definition kb : key := [98]%N.
@@ -110,6 +291,48 @@ Proof.
   split; [apply (new_pers_ok 1 3 0); [reflexivity|auto]|]. split; vm_compute; reflexivity.
 Qed.
 
+(** non-vacuity of the early stop: DB, MaxBatchSize 1 (every write flushed at once), keys written in the order c, a, b;
+    the handler asking to stop after 2 visits is given a and b (ascending), asking for 0 or 1 it is given a alone *)
+Example C09_range_stop_nonvacuous :
+  exists p, new_pers 0 1 0 = Some p /\ p_ok p
+  /\ let q := fst (p_run p [OPut kc (Some [3]%N); OPut ka (Some [1]%N); OPut kb None]) in
+     p_range q = [(kb, []); (ka, [1]%N); (kc, [3]%N)]
+     /\ p_range_stop 2 q = [(ka, [1]%N); (kb, [])] /\ p_range_stop 0 q = [(ka, [1]%N)] /\ p_range_stop 9 q = [(ka, [1]%N); (kb, []); (kc, [3]%N)]
+     /\ p_accept_stop 2 q [(ka, [1]%N); (kb, [])] = true /\ p_accept_stop 2 q [(kb, []); (ka, [1]%N)] = false
+     /\ p_accept_stop 2 q [(ka, [1]%N)] = false.
+Proof.
+  eexists. split; [reflexivity|]. split; [apply (new_pers_ok 0 1 0); reflexivity|]. vm_compute. repeat split.
+Qed.
+
+(** ... and of the sharded walk: 2 shards over SerialDB (a -> shard 1, b and d -> shard 0), n = 1: the model (order 0, 1)
+    is given b then a; the acceptor takes the other order as well, and refuses a walk that goes on in a shard after false *)
+Example C09_range_stop_sharded_nonvacuous :
+  exists p, new_pers 4 1 2 = Some p /\ p_ok p
+  /\ let q := fst (p_run p [OPut ka (Some [1]%N); OPut kb (Some [2]%N); OPut [100]%N (Some [4]%N)]) in
+     p_range_stop 1 q = [(kb, [2]%N); (ka, [1]%N)]
+     /\ p_accept_stop 1 q [(kb, [2]%N); (ka, [1]%N)] = true /\ p_accept_stop 1 q [(ka, [1]%N); (kb, [2]%N)] = true
+     /\ p_accept_stop 1 q [(kb, [2]%N); ([100]%N, [4]%N); (ka, [1]%N)] = false
+     /\ p_accept_stop 1 q [(kb, [2]%N)] = false
+     /\ p_accept_stop 5 q [(ka, [1]%N); (kb, [2]%N); ([100]%N, [4]%N)] = true.
+Proof.
+  eexists. split; [reflexivity|]. split; [apply (new_pers_ok 4 1 2); reflexivity|]. vm_compute. repeat split.
+Qed.
+
+(** ... and of the destroy cycles: a history with both cycles; after each the persister is empty, writes made afterwards are kept *)
+Definition ex_ops3 : list op3 :=
+  [O3 (O2 (OPut ka (Some [1]%N))); O3 (O2 (OPut kb (Some [2]%N))); O3 (O2 (OPut kc None)); ODestroyCycle; O3 (O2 (OGet ka));
+   O3 (O2 (OPut kb (Some [7]%N))); O3 OCycle; O3 (O2 (OGet kb)); OCloseDestroyCycle; O3 (O2 (OGet kb)); O3 (O2 (OPut kc (Some [9]%N)))].
+Example C09_destroy_nonvacuous :
+  exists p, new_pers 0 2 0 = Some p /\ p_ok p /\ p_durable p
+  /\ snd (p_run3 p ex_ops3) =
+     [(ROk, None); (ROk, None); (ROk, None); (ROk, None); (RNotFound, None);
+      (ROk, None); (ROk, None); (ROk, Some [7]%N); (ROk, None); (RNotFound, None); (ROk, None)]
+  /\ fst (p_destroy_cycle (fst (p_run3 p ex_ops3))) = p.
+Proof.
+  eexists. split; [reflexivity|]. split; [apply (new_pers_ok 0 2 0); reflexivity|].
+  split; [apply (new_pers_ok 0 2 0); [reflexivity|auto]|]. split; vm_compute; reflexivity.
+Qed.
+
 Print Assumptions C09_close_reopen.
 Print Assumptions C09_close_reopen_state.
 Print Assumptions C09_histories_with_cycles.
@@ -122,3 +345,22 @@ Print Assumptions C09_closed_serial_db.
 Print Assumptions C09_closed_db_ops_do_not_reach_disk.
 Print Assumptions C09_closed_serial_db_ops_do_nothing.
 Print Assumptions C09_observation_put_on_closed_db_acknowledged.
+Print Assumptions C09_range_stop.
+Print Assumptions C09_range_stop_reachable.
+Print Assumptions C09_range_stop_ascending.
+Print Assumptions C09_range_stop_any_shard_order.
+Print Assumptions C09_range_stop_model_order.
+Print Assumptions C09_range_stop_sharded_stops_refuted.
+Print Assumptions C09_range_stop_checker_sound.
+Print Assumptions C09_range_stop_explained.
+Print Assumptions C09_range_stop_model_explained.
+Print Assumptions C09_destroy_reopen_empty.
+Print Assumptions C09_close_destroy_closed_reopen_empty.
+Print Assumptions C09_destroy_cycles_are_fresh.
+Print Assumptions C09_destroy_after_any_history.
+Print Assumptions C09_histories_with_destroy_cycles.
+Print Assumptions C09_destroyed_db.
+Print Assumptions C09_destroyed_serial_db.
+Print Assumptions C09_destroyed_memdb_is_a_new_one.
+Print Assumptions C09_destroyed_object_answers.
+Print Assumptions C09_destroyed_object_ops_then_reopen.
